@@ -429,7 +429,9 @@ pub fn gen_frame(rng: &mut Rng, l: &Value, compressed: bool, o: &GenOpts) -> Vec
 // second pass over the model's output: text tokens S<hex>/R<hex> -> s<code points>, non-finite floats
 
 pub fn resolve(outdir: &std::path::Path) {
-    use insim_core::string::codepages::to_lossy_string;
+    // the decoder under test is also what turns the model's text tokens into code points: if it aborts, the token says so
+    // (the line then differs from the implementation's and is reported as a disagreement, not as a crashed pass)
+    let to_lossy_string = |b: &[u8]| -> String { let v = b.to_vec(); guard(move || insim_core::string::codepages::to_lossy_string(&v).to_string()).unwrap_or_else(|| "\u{1}decoder-abort".to_string()) };
     let text = std::fs::read_to_string(outdir.join("model.txt")).unwrap_or_default();
     let mut out = String::with_capacity(text.len());
     let conv = |tok: &str| -> String {
